@@ -1178,6 +1178,7 @@ val cs_opposite : char_search -> char_search
 type inchar =
 | Ch of n
 | Bad
+| Print of str
 
 type istream = { in_cur : inchar list; in_rest : inchar list list }
 
@@ -1281,9 +1282,15 @@ val seg : uData -> str -> str list
 
 val cols : config -> nat
 
+val take_in_chunk : inchar list -> (inchar * inchar list) option
+
 val take_first : inchar list list -> (inchar * istream) option
 
 val take_char : inchar list -> inchar list list -> (inchar * istream) option
+
+val peek_first : inchar list list -> (str * istream) option
+
+val peek_print : istream -> (str * istream) option
 
 val next_char : n e
 
@@ -1506,6 +1513,12 @@ val isearch_loop :
   -> cmd option e
 
 val incremental_search : uData -> config -> nat -> cmd option e
+
+val ends_with_lf_str : str -> bool
+
+val external_print : uData -> config -> str -> unit e
+
+val drain_prints : uData -> config -> nat -> unit e
 
 type outcome =
 | OLine of str
